@@ -49,13 +49,38 @@ pub fn issuer_alphabet() -> Vec<IssOp> {
     ]
 }
 
+fn issuer_fresh_classes_cached(alpha: &[IssOp], alg: Alg) -> Vec<&'static str> {
+    use std::sync::Mutex;
+    static CACHE: Mutex<Vec<(String, Vec<&'static str>)>> = Mutex::new(vec![]);
+    let key = format!("{}:{}", alg.name(), alpha.iter().map(|o| o.name).collect::<Vec<_>>().join(","));
+    let mut g = CACHE.lock().unwrap();
+    if let Some((_, v)) = g.iter().find(|(k, _)| *k == key) {
+        return v.clone();
+    }
+    let v = issuer_fresh_classes(alpha, alg);
+    g.push((key, v.clone()));
+    v
+}
+
 fn seq_case(kind: &str, names: &[&str]) -> Value {
     json!({"kind": kind, "sequence": names})
 }
 
 /// Executes the sequence on ONE issuer instance; the oracle is evaluated on the last call (every
 /// prefix is itself an enumerated sequence), with all earlier results kept for the no-leak clause.
+/// Ok/Err class of each operation on a FRESH issuer (the differential reference for "fails").
+pub fn issuer_fresh_classes(alpha: &[IssOp], alg: Alg) -> Vec<&'static str> {
+    alpha
+        .iter()
+        .map(|op| {
+            let mut issuer = drive::new_issuer(keys::issuer_enc(alg, 0), Some(alg.name()));
+            drive::issue(&mut issuer, &op.claims, &op.strat, op.hk.jwk(0), op.decoys, op.fmt).class()
+        })
+        .collect()
+}
+
 pub fn run_issuer_seq(alpha: &[IssOp], seq: &[usize], alg: Alg, l: &mut Local) {
+    let fresh = issuer_fresh_classes_cached(alpha, alg);
     l.evals += 1;
     l.traces += 1;
     l.transitions += seq.len() as u64;
@@ -74,13 +99,19 @@ pub fn run_issuer_seq(alpha: &[IssOp], seq: &[usize], alg: Alg, l: &mut Local) {
             case["alg"] = json!(alg.name());
             Violation::new("issue", class, format!("{}:{site}", op.name), hist, format!("call {} of the history: {detail}", k + 1), case)
         };
-        if op.fails {
+        if last && out.class() != fresh[oi] {
+            l.violation(mk("differs_from_fresh_instance", "c11_outcome_class", format!("{} on a used instance, {} on a fresh one", out.class(), fresh[oi])));
+            continue;
+        }
+        if let Out::Panic { site, msg } = &out {
             if last {
-                match &out {
-                    Out::Err { .. } => l.outcome("failing_call_failed"),
-                    Out::Ok(_) => l.violation(mk("ok_where_err_required", "c11_failing_call_succeeded", String::new())),
-                    Out::Panic { site, msg } => l.violation(mk("panic", site, msg.clone())),
-                }
+                l.violation(mk("panic", site, msg.clone()));
+            }
+            continue;
+        }
+        if out.is_err() {
+            if last {
+                l.outcome("failing_call_failed");
             }
             continue;
         }
@@ -190,18 +221,23 @@ pub fn run_holder_seq(cred: &Cred, alpha: &[HoldOp], seq: &[usize], l: &mut Loca
             case["fmt"] = json!(fmt.name());
             Violation::new("present", class, format!("{}:{site}", op.name), hist, format!("call {} of the history: {detail}", k + 1), case)
         };
-        if op.fails {
-            match &out {
-                Out::Err { .. } => l.outcome("failing_call_failed"),
-                Out::Ok(_) => l.violation(mk("ok_where_err_required", "c11_failing_call_succeeded", String::new())),
-                Out::Panic { site, msg } => l.violation(mk("panic", site, msg.clone())),
-            }
+        // differential reference: the same call on a fresh holder of the same SD-JWT
+        let fresh_class = match drive::holder_new(&cred.issued, fmt) {
+            Out::Ok(mut h2) => drive::present(&mut h2, &op.sel, &kb_of(op)).class(),
+            _ => "Err",
+        };
+        if out.class() != fresh_class {
+            l.violation(mk("differs_from_fresh_instance", "c11_outcome_class", format!("{} on a used instance, {} on a fresh one", out.class(), fresh_class)));
             continue;
         }
         let p = match &out {
             Out::Ok(p) => p.clone(),
-            o => {
-                l.violation(mk(if o.is_panic() { "panic" } else { "err_where_ok_required" }, &o.site(), o.describe()));
+            Out::Err { .. } => {
+                l.outcome("failing_call_failed");
+                continue;
+            }
+            Out::Panic { site, msg } => {
+                l.violation(mk("panic", site, msg.clone()));
                 continue;
             }
         };
